@@ -20,6 +20,7 @@ RULE = ("cases: ACL programs with any previous numbering - flat, grouped by rema
         "else numbers in rendered order are start+i*step, return == last, text minus numbers unchanged, same "
         "item objects, no number > 2^32-1). Non-trivial: n>=2 and (a group is present or a boundary argument "
         "is used); distinct by canonical case")
+RULE += ". Directed classes added after the seeded-change rounds: long remark texts; entries and repeated headings appended to the built ACL; IOS standard lists; whole Acl objects as items; an earlier (possibly refused) call on the same object"
 ASSUMPTIONS = ["after an error return nothing is asserted about the numbers", "groups are non-empty (quantifier)"]
 
 MAX = R.SEQ_MAX
